@@ -1,0 +1,167 @@
+//go:build verif
+
+package tls
+
+import (
+	"crypto"
+	"crypto/md5"
+	"crypto/sha1"
+	"crypto/sha256"
+	"crypto/sha512"
+	"hash"
+)
+
+// Verification hooks for property C26 (key derivation).  Thin exported
+// wrappers over the unexported PRF / key-schedule functions; no logic of
+// their own beyond argument plumbing.
+
+// VerifC26Suite is a read-only view of one cipherSuite table entry.
+type VerifC26Suite struct {
+	Table  string // "cipherSuites" | "implementedCipherSuites"
+	Index  int
+	ID     uint16
+	KeyLen int
+	MACLen int
+	IVLen  int
+	SHA384 bool
+	TLS12  bool
+	AEAD   bool
+}
+
+// VerifC26Suites dumps both pre-1.3 suite tables in table order.
+func VerifC26Suites() []VerifC26Suite {
+	var out []VerifC26Suite
+	dump := func(name string, tbl []*cipherSuite) {
+		for i, s := range tbl {
+			out = append(out, VerifC26Suite{Table: name, Index: i, ID: s.id, KeyLen: s.keyLen, MACLen: s.macLen, IVLen: s.ivLen,
+				SHA384: s.flags&suiteSHA384 != 0, TLS12: s.flags&suiteTLS12 != 0, AEAD: s.aead != nil})
+		}
+	}
+	dump("cipherSuites", cipherSuites)
+	dump("implementedCipherSuites", implementedCipherSuites)
+	return out
+}
+
+// VerifC26Suite13 is a read-only view of one cipherSuiteTLS13 entry.
+type VerifC26Suite13 struct {
+	ID     uint16
+	KeyLen int
+	Hash   crypto.Hash
+}
+
+func VerifC26Suites13() []VerifC26Suite13 {
+	var out []VerifC26Suite13
+	for _, s := range cipherSuitesTLS13 {
+		out = append(out, VerifC26Suite13{ID: s.id, KeyLen: s.keyLen, Hash: s.hash})
+	}
+	return out
+}
+
+func verifC26HashByName(name string) func() hash.Hash {
+	switch name {
+	case "md5":
+		return md5.New
+	case "sha1":
+		return sha1.New
+	case "sha256":
+		return sha256.New
+	case "sha384":
+		return sha512.New384
+	}
+	panic("verif: unknown hash " + name)
+}
+
+// VerifC26PHash calls pHash with the named hash.
+func VerifC26PHash(hashName string, secret, seed []byte, n int) []byte {
+	out := make([]byte, n)
+	pHash(out, secret, seed, verifC26HashByName(hashName))
+	return out
+}
+
+// VerifC26PRF10 calls prf10.
+func VerifC26PRF10(secret, label, seed []byte, n int) []byte {
+	out := make([]byte, n)
+	prf10(out, secret, label, seed)
+	return out
+}
+
+// VerifC26PRF12 calls prf12 with the named hash.
+func VerifC26PRF12(hashName string, secret, label, seed []byte, n int) []byte {
+	out := make([]byte, n)
+	prf12(verifC26HashByName(hashName))(out, secret, label, seed)
+	return out
+}
+
+// VerifC26PRFForVersion calls the function chosen by prfForVersion(version, suite).
+func VerifC26PRFForVersion(version, suiteID uint16, secret, label, seed []byte, n int) []byte {
+	out := make([]byte, n)
+	prfForVersion(version, cipherSuiteByID(suiteID))(out, secret, label, seed)
+	return out
+}
+
+func VerifC26MasterFromPreMasterSecret(version, suiteID uint16, pms, clientRandom, serverRandom []byte) []byte {
+	return masterFromPreMasterSecret(version, cipherSuiteByID(suiteID), pms, clientRandom, serverRandom)
+}
+
+// VerifC26KeysFromMasterSecret returns clientMAC, serverMAC, clientKey, serverKey, clientIV, serverIV.
+func VerifC26KeysFromMasterSecret(version, suiteID uint16, master, clientRandom, serverRandom []byte, macLen, keyLen, ivLen int) [6][]byte {
+	a, b, c, d, e, f := keysFromMasterSecret(version, cipherSuiteByID(suiteID), master, clientRandom, serverRandom, macLen, keyLen, ivLen)
+	return [6][]byte{a, b, c, d, e, f}
+}
+
+// VerifC26Finished feeds msgs to a fresh finishedHash and returns Sum(),
+// clientSum(master), serverSum(master).
+func VerifC26Finished(version, suiteID uint16, master []byte, msgs [][]byte) (sum, client, server []byte) {
+	fh := newFinishedHash(version, cipherSuiteByID(suiteID))
+	for _, m := range msgs {
+		fh.Write(m)
+	}
+	return fh.Sum(), fh.clientSum(master), fh.serverSum(master)
+}
+
+func VerifC26EKM(version, suiteID uint16, master, clientRandom, serverRandom []byte, label string, context []byte, length int) ([]byte, error) {
+	return ekmFromMasterSecret(version, cipherSuiteByID(suiteID), master, clientRandom, serverRandom)(label, context, length)
+}
+
+func verifC26Transcript(s *cipherSuiteTLS13, msgs [][]byte) hash.Hash {
+	h := s.hash.New()
+	for _, m := range msgs {
+		h.Write(m)
+	}
+	return h
+}
+
+func VerifC26ExpandLabel(suiteID uint16, secret []byte, label string, context []byte, length int) []byte {
+	return cipherSuiteTLS13ByID(suiteID).expandLabel(secret, label, context, length)
+}
+
+// VerifC26DeriveSecret: nilTranscript selects the nil hash.Hash argument.
+func VerifC26DeriveSecret(suiteID uint16, secret []byte, label string, nilTranscript bool, msgs [][]byte) []byte {
+	s := cipherSuiteTLS13ByID(suiteID)
+	if nilTranscript {
+		return s.deriveSecret(secret, label, nil)
+	}
+	return s.deriveSecret(secret, label, verifC26Transcript(s, msgs))
+}
+
+func VerifC26Extract(suiteID uint16, newSecret, currentSecret []byte) []byte {
+	return cipherSuiteTLS13ByID(suiteID).extract(newSecret, currentSecret)
+}
+
+func VerifC26NextTrafficSecret(suiteID uint16, secret []byte) []byte {
+	return cipherSuiteTLS13ByID(suiteID).nextTrafficSecret(secret)
+}
+
+func VerifC26TrafficKey(suiteID uint16, secret []byte) (key, iv []byte) {
+	return cipherSuiteTLS13ByID(suiteID).trafficKey(secret)
+}
+
+func VerifC26FinishedHash13(suiteID uint16, baseKey []byte, msgs [][]byte) []byte {
+	s := cipherSuiteTLS13ByID(suiteID)
+	return s.finishedHash(baseKey, verifC26Transcript(s, msgs))
+}
+
+func VerifC26ExportKeyingMaterial13(suiteID uint16, master []byte, msgs [][]byte, label string, context []byte, length int) ([]byte, error) {
+	s := cipherSuiteTLS13ByID(suiteID)
+	return s.exportKeyingMaterial(master, verifC26Transcript(s, msgs))(label, context, length)
+}
